@@ -72,6 +72,17 @@ def step (st : St) (pre post : List String) : St × Verdict :=
     else (st, .diff s!"twin A crashed: {" ".intercalate (post.take 30)}")
   | ["A", "blk", h, _] => ({ st with ablk := (h, post) :: st.ablk }, if post.length = 5 then .ok else .bad "blk arity")
   | ["B", "restart", _] => (st, .ok)
+  | [role, "coh", h] =>
+    -- the coherence invariant after block execution; without off-chain application queries nothing but
+    -- block execution itself can have broken it
+    match field post "post" >>= parseItems, field post "store" >>= parseItems with
+    | some c, some s =>
+      if coherentB c s then (st, .ok)
+      else if role = "B" && st.kind = "appquery" then
+        if st.incoherent then (st, .ok)
+        else ({ st with incoherent := true }, .propfail "appcache-incoherent" s!"after block {h}: cache {renderItems c} vs working store {renderItems s}")
+      else (st, .propfail "appcache-incoherent-by-block" s!"twin {role} ({st.kind}) after block {h}: cache {renderItems c} vs working store {renderItems s}")
+    | _, _ => (st, .bad "dump fields")
   | "B" :: "act" :: _ =>
     match st.q with
     | none => (st, .bad "no mode line")
